@@ -432,7 +432,7 @@ open Httpcache
 
 /-! ### C05 -/
 def hopNames (hd : Header) : List Str :=
-  Spec.hopByHopFixed ++ (((Spec.listMembers hd sConnection)).map canonicalHeaderKey)
+  Spec.hopByHopFixed ++ (((Spec.tokenListMembers hd sConnection)).map canonicalHeaderKey)
 
 def cacheOwn : List Str := [sAge, sStatusHeader, sFromCache]
 
